@@ -239,6 +239,10 @@ def one_case(args):
                 ev.append({'n': 1, 't': 0, 'e': 'Probe', 'ok': False, 'ms': int(VICTIM_WALL * 1000), 'who': 'victim'})
         ok, ms = probe(F, path, PROMPT_MS / 1000.0 + 1.0)
         ev.append({'n': 2, 't': 0, 'e': 'Probe', 'ok': ok, 'ms': ms})
+        if ncont == 0 and holder is None:
+            # nobody else is around: the lock is simply free, also for an attempt that does not wait at all
+            ok0, ms0 = probe(F, path, 0.0)
+            ev.append({'n': 2, 't': 0, 'e': 'Probe', 'ok': ok0, 'ms': ms0, 'who': 'timeout0'})
         time.sleep(0.01 if ncont else 0)
         os.write(stop_w, b'x')
         stuck = _reap(cpids, CONTENDER_WALL)
@@ -261,7 +265,7 @@ def long_hold_case(args):
     """The holder dies (SIGKILL) after holding the lock for hold_s while a contender has been waiting
     for it with a plain timed acquire (default poll interval): the contender must get the lock
     promptly after the death, however long it had already waited."""
-    hold_s, = args
+    hold_s, fast = (tuple(args) + (False,))[:2]
     F = _import()
     d = tempfile.mkdtemp(prefix='vcrash-')
     try:
@@ -284,7 +288,15 @@ def long_hold_case(args):
         if cont == 0:
             try:
                 lock = F.FileLock(path)
-                ok = lock.acquire(timeout=hold_s + 20)
+                if fast:
+                    import resource
+                    # a waiting contender polls many times before the holder dies: with a small descriptor budget
+                    # every failed attempt that kept a descriptor would make the lock unobtainable for it (EMFILE)
+                    soft, hard = resource.getrlimit(resource.RLIMIT_NOFILE)
+                    resource.setrlimit(resource.RLIMIT_NOFILE, (min(soft, 48), hard))
+                    ok = lock.acquire(timeout=hold_s + 20, poll_interval=0.01)
+                else:
+                    ok = lock.acquire(timeout=hold_s + 20)
                 os.write(w2, json.dumps([bool(ok), time.time()]).encode())
                 if ok:
                     lock.release()
@@ -403,7 +415,8 @@ def run(ctx):
             if kind in ('blocking', 'nested') and (ctx.tier == 'thorough' or n % 3 == 0):
                 cases.append((kind, reentrant, n, 0, True))
     with mp.get_context('fork').Pool(min(16, os.cpu_count() or 4)) as p:
-        lh = p.map_async(long_hold_case, [(3.6,)] if ctx.tier == 'quick' else [(3.6,), (7.0,), (1.0,)])
+        lh = p.map_async(long_hold_case, [(3.6, False), (1.5, True)] if ctx.tier == 'quick'
+                         else [(3.6, False), (7.0, False), (1.0, False), (1.5, True), (4.0, True)])
         lh2 = p.map_async(long_hold2_case, [(1.0, 0.4)] if ctx.tier == 'quick' else [(1.0, 0.4), (2.0, 0.5), (0.5, 0.3)])
         traces = p.map(one_case, cases, chunksize=4)
         lht = lh.get(120)
